@@ -249,6 +249,9 @@ pub enum SStep {
     Poll,
     Reconnect,
     Disconnect,
+    /// the application goes straight on to the next step: whatever the previous request left
+    /// queued (in the cancelled execution: possibly the whole packet) is still there
+    NoDrain,
 }
 
 fn gen_script(w: &mut World, with_disconnect: bool) -> Vec<SStep> {
@@ -272,6 +275,16 @@ fn gen_script(w: &mut World, with_disconnect: bool) -> Vec<SStep> {
         if w.cfg.keepalive_s > 0 && w.tape.chance(1, 3) {
             v.push(SStep::Sleep([300 * clock::US_PER_MS, 600 * clock::US_PER_MS, 1100 * clock::US_PER_MS, 2500 * clock::US_PER_MS][w.tape.choose(4) as usize]));
         }
+    }
+    // between two requests the application sometimes does not poll
+    let is_request = |s: &SStep| matches!(s, SStep::Pub(_) | SStep::Sub(_) | SStep::Unsub(_));
+    let mut k = 0;
+    while k + 1 < v.len() {
+        if is_request(&v[k]) && is_request(&v[k + 1]) && w.tape.chance(1, 3) {
+            v.insert(k + 1, SStep::NoDrain);
+            k += 1;
+        }
+        k += 1;
     }
     if with_disconnect && w.tape.chance(1, 3) {
         v.push(SStep::Disconnect);
@@ -408,7 +421,7 @@ fn exec_script(session: &mut minimq::Session<'_>, script: &[SStep]) {
                     clock::advance_to(clock::now() + *d);
                     w.run_due_events();
                 }),
-                SStep::Poll => {}
+                SStep::Poll | SStep::NoDrain => {}
                 SStep::Reconnect => reconnect = true,
                 SStep::Disconnect => {
                     // a cancelled disconnect() is re-issued; the sixth attempt is not cancelled any
@@ -432,6 +445,11 @@ fn exec_script(session: &mut minimq::Session<'_>, script: &[SStep]) {
             }
             if reconnect {
                 break;
+            }
+            if matches!(script.get(i), Some(SStep::NoDrain)) {
+                i += 1;
+                with(|w| w.probe("twin_step_without_drain"));
+                continue;
             }
             // timed variant: after a cancellation the application is busy elsewhere for a while
             // (never in the uncancelled run, whose schedule tape is all zero)
@@ -605,7 +623,9 @@ fn cancel_twin() {
         // ... and from the twin what the base run refused for lack of a resource: requests that
         // were cancelled before being enqueued leave the twin with more room than the base run
         let drop_tag = |k: &String| twin.not_accepted.iter().chain(base.refused_for_resources.iter()).any(|t| k.ends_with(&format!(" t{t}")));
-        let keep_pings = w.cfg.twin_same_timing;
+        // PINGREQs are comparable only if both runs share every delay *and* put the same packets
+        // on the wire: a request that only one of them transmitted restarts only its keep-alive
+        let keep_pings = w.cfg.twin_same_timing && !base.keys.iter().chain(twin.keys.iter()).flatten().any(|k| drop_tag(k));
         let filt = |v: &Vec<Vec<String>>| -> Vec<String> { v.iter().flatten().filter(|k| !drop_tag(k) && *k != "DISCONNECT" && (keep_pings || *k != "PINGREQ")).cloned().collect() };
         let a = filt(&base.keys);
         let b = filt(&twin.keys);
